@@ -71,6 +71,8 @@ var progSpecs = []progSpec{
 	{"container/processors", "valueAwarePostProcessors", "PostProcessProperties", "value_PostProcessProperties"},
 	{"container/processors", "expressionTagAwarePostProcessors", "PostProcessProperties", "expr_PostProcessProperties"},
 	{"container/processors", "validateAwarePostProcessors", "PostProcessProperties", "validate_PostProcessProperties"},
+	{"component_definition", "Meta", "scanFields", "meta_scanFields"},
+	{"util/reflectx", "", "ForEachFieldV2", "reflectx_ForEachFieldV2"},
 }
 
 // conversions whose single argument is passed through unchanged
@@ -188,6 +190,24 @@ func (t *tr) expr(e ast.Expr) string {
 		if x.Op == token.SUB {
 			if bl, ok := x.X.(*ast.BasicLit); ok && bl.Kind == token.INT {
 				return fmt.Sprintf("(.int (-%s))", bl.Value)
+			}
+		}
+		if cl, ok := x.X.(*ast.CompositeLit); ok && x.Op == token.AND {
+			// &T{k1: v1, k2: v2}: a fresh object, the primitive "&T{k1,k2}" applied to the field values in textual order
+			var keys []string
+			var vals []ast.Expr
+			keyed := true
+			for _, el := range cl.Elts {
+				kv, isKV := el.(*ast.KeyValueExpr)
+				if !isKV {
+					keyed = false
+					break
+				}
+				keys = append(keys, exprName(kv.Key))
+				vals = append(vals, kv.Value)
+			}
+			if keyed {
+				return fmt.Sprintf("(.call %s %s)", lq("&"+exprName(cl.Type)+"{"+strings.Join(keys, ",")+"}"), t.list(vals))
 			}
 		}
 		return t.unsupported("unary "+x.Op.String(), x)
